@@ -285,9 +285,10 @@ func ruleP2(c *Ctx) {
 	}
 	fieldsPassedTo := func(fn *ssa.Function, calleeName string) map[string]bool {
 		out := map[string]bool{}
-		allInstrs(fn, func(in ssa.Instruction) {
+		// in fn itself or in a same-package helper it calls (the list of fields may have been moved into one)
+		walkHelpers(fn, 2, func(_ *ssa.Function, in ssa.Instruction, _ ssa.Instruction) {
 			call, ok := in.(*ssa.Call)
-			if !ok || call.Call.StaticCallee() == nil || call.Call.StaticCallee().Name() != calleeName {
+			if !ok || call.Call.StaticCallee() == nil || fnName(call.Call.StaticCallee()) != calleeName {
 				return
 			}
 			for _, a := range call.Call.Args {
@@ -586,18 +587,32 @@ func ruleP5(c *Ctx) {
 	}
 	fi := c.fi(fn)
 	stages := []string{"Init", "processGraphPattern", "projectAndGroupBy", "orderBy", "having", "limit"}
-	calls := map[string][]ssa.Instruction{}
-	allInstrs(fn, func(in ssa.Instruction) {
+	// a stage call in Execute itself, or in a same-package helper Execute calls on the same plan (the stages may be
+	// grouped into a helper such as "shape the results"): in is the call, inFn its function, top the instruction of
+	// Execute it happens under
+	type stageCall struct {
+		in, top ssa.Instruction
+		inFn    *ssa.Function
+	}
+	calls := map[string][]stageCall{}
+	walkHelpers(fn, 2, func(inFn *ssa.Function, in ssa.Instruction, top ssa.Instruction) {
 		if call, ok := in.(*ssa.Call); ok {
 			if f := call.Call.StaticCallee(); f != nil {
 				for _, s := range stages {
-					if f.Name() == s {
-						calls[s] = append(calls[s], in)
+					if fnName(f) == s && (s == "Init" || (f.Signature.Recv() != nil && isNamed(f.Signature.Recv().Type(), modPath+"/bql/planner", "queryPlan"))) {
+						calls[s] = append(calls[s], stageCall{in, top, inFn})
 					}
 				}
 			}
 		}
 	})
+	// a precedes b on every path: within one function by dominance there, else by dominance of the Execute-level instructions
+	precedes := func(a, b stageCall) bool {
+		if a.inFn == b.inFn {
+			return c.fi(a.inFn).instrDominates(a.in, b.in) && a.in != b.in
+		}
+		return a.top != b.top && fi.instrDominates(a.top, b.top)
+	}
 	for i, s := range stages {
 		key := "queryPlan.Execute stage " + s
 		if len(calls[s]) != 1 {
@@ -605,17 +620,18 @@ func ruleP5(c *Ctx) {
 			continue
 		}
 		if i == 0 {
-			c.ok(key, calls[s][0].Pos(), "first stage")
+			c.ok(key, calls[s][0].in.Pos(), "first stage")
 			continue
 		}
 		prev := stages[i-1]
 		if len(calls[prev]) != 1 {
 			continue
 		}
-		if fi.instrDominates(calls[prev][0], calls[s][0]) && !inLoop(fi, calls[s][0].Block()) {
-			c.ok(key, calls[s][0].Pos(), "dominated by stage %s", prev)
+		cur := calls[s][0]
+		if precedes(calls[prev][0], cur) && !inLoop(c.fi(cur.inFn), cur.in.Block()) && !inLoop(fi, cur.top.Block()) {
+			c.ok(key, cur.in.Pos(), "dominated by stage %s", prev)
 		} else {
-			c.bad(key, calls[s][0].Pos(), "stage %s at %s is not preceded by stage %s on every path: e.g. LIMIT applied before HAVING/ORDER BY, or HAVING before grouping", s, c.pos(calls[s][0].Pos()), prev)
+			c.bad(key, cur.in.Pos(), "stage %s at %s is not preceded by stage %s on every path: e.g. LIMIT applied before HAVING/ORDER BY, or HAVING before grouping", s, c.pos(cur.in.Pos()), prev)
 		}
 	}
 	// the table returned is the plan's table after limit
@@ -674,7 +690,7 @@ func ruleP6(c *Ctx) {
 					case *ssa.Convert:
 						walk(x, d+1)
 					case *ssa.Call:
-						if f := x.Call.StaticCallee(); f != nil && f.Name() == "simpleFetch" {
+						if f := x.Call.StaticCallee(); f != nil && fnName(f) == "simpleFetch" {
 							reaches = true
 						}
 					case *ssa.Return:
@@ -1021,7 +1037,7 @@ func ruleP9(c *Ctx) {
 		withClosures(ex, func(f *ssa.Function) {
 			allInstrs(f, func(in ssa.Instruction) {
 				call, ok := in.(*ssa.Call)
-				if !ok || call.Call.StaticCallee() == nil || call.Call.StaticCallee().Name() != "update" {
+				if !ok || call.Call.StaticCallee() == nil || fnName(call.Call.StaticCallee()) != "update" {
 					return
 				}
 				nUp++
